@@ -304,7 +304,161 @@ func drawQuery(t *rapid.T) Query {
 	for i := 0; i < nAggs; i++ {
 		q.Aggs = append(q.Aggs, drawAgg(t))
 	}
+	if q.Grouped && rapid.IntRange(0, 9).Draw(t, "siblings") < 5 {
+		drawSiblings(t, &q)
+	}
 	return q
+}
+
+// cloneFilter deep-copies a filter tree.
+func cloneFilter(f Filter) Filter {
+	c := f
+	if f.Val != nil {
+		v := *f.Val
+		c.Val = &v
+	}
+	if f.Vals != nil {
+		c.Vals = append([]Lit{}, f.Vals...)
+	}
+	if f.Kids != nil {
+		c.Kids = make([]Filter, len(f.Kids))
+		for i := range f.Kids {
+			c.Kids[i] = cloneFilter(f.Kids[i])
+		}
+	}
+	return c
+}
+
+// perturb returns a copy of the filter in which exactly one operand differs: one constant of one
+// leaf, or one element of an _in/_nin list (the list keeps its length). Operator tree, fields and
+// operators stay the same.
+func perturb(t *rapid.T, f Filter) Filter {
+	c := cloneFilter(f)
+	leaves := []*Filter{}
+	c.walk(func(n *Filter) {
+		if n.Kind == "leaf" && !((n.Op == "_in" || n.Op == "_nin") && len(n.Vals) == 0) {
+			leaves = append(leaves, n)
+		}
+	})
+	if len(leaves) == 0 {
+		return c
+	}
+	n := leaves[rapid.IntRange(0, len(leaves)-1).Draw(t, "pleaf")]
+	for try := 0; try < 6; try++ {
+		switch n.Op {
+		case "_in", "_nin":
+			i := rapid.IntRange(0, len(n.Vals)-1).Draw(t, "pelem")
+			v := drawOperand(t, n.Field, 10)
+			if v.key() != n.Vals[i].key() {
+				n.Vals[i] = v
+				return c
+			}
+		case "_like", "_nlike", "_ilike", "_nilike":
+			pat := drawLikePattern(t)
+			if pat != *n.Val.S {
+				n.Val = &Lit{S: &pat}
+				return c
+			}
+		default:
+			v := drawOperand(t, n.Field, 10)
+			if v.key() != n.Val.key() {
+				n.Val = &v
+				return c
+			}
+		}
+	}
+	return c
+}
+
+// drawListLeaf draws `field: {_in|_nin: [2-3 values]}` over a field whose pool is small enough
+// for the list to select some but not all members.
+func drawListLeaf(t *rapid.T) Filter {
+	ops := fieldOps()
+	field := rapid.SampledFrom([]string{"i", "i", "s", "f", "t", "b"}).Draw(t, "lfield")
+	cands := []string{}
+	for _, op := range ops[field] {
+		if op == "_in" || op == "_nin" {
+			cands = append(cands, op)
+		}
+	}
+	if len(cands) == 0 {
+		return drawLeaf(t, []string{field})
+	}
+	f := Filter{Kind: "leaf", Field: field, Op: rapid.SampledFrom(cands).Draw(t, "lop"), Vals: []Lit{}}
+	n := rapid.IntRange(1, 3).Draw(t, "llen")
+	for i := 0; i < n; i++ {
+		f.Vals = append(f.Vals, drawOperand(t, field, 10))
+	}
+	return f
+}
+
+// drawSiblings rewrites the consumers of _group (the rendered _group selection and the aggregates)
+// into "almost equal" siblings: the same filter tree, limit, offset and order, except for one
+// operand (a constant or one element of an equal-length list) — the class in which a planner that
+// shares one source between consumers it takes for identical goes wrong. Some siblings keep the
+// identical filter (control: sharing is right there).
+func drawSiblings(t *rapid.T, q *Query) {
+	var base Filter
+	switch rapid.IntRange(0, 9).Draw(t, "sbase") {
+	case 0, 1, 2, 3:
+		base = drawListLeaf(t)
+	case 4:
+		base = Filter{Kind: "not", Kids: []Filter{drawListLeaf(t)}}
+	case 5:
+		base = Filter{Kind: rapid.SampledFrom([]string{"and", "or"}).Draw(t, "sconn"), Kids: []Filter{drawListLeaf(t), drawLeaf(t, fieldNames)}}
+	case 6:
+		base = Filter{Kind: "and", Kids: []Filter{drawLeaf(t, fieldNames), {Kind: "or", Kids: []Filter{drawListLeaf(t), drawLeaf(t, fieldNames)}}}}
+	case 7, 8:
+		base = drawLeaf(t, fieldNames)
+	default:
+		base = drawFilter(t, 2)
+	}
+	// shared arguments. Aggregates over an unordered slice inside a group cannot be judged (except
+	// _count), and _count takes no order: three modes keep every sibling judgeable and colliding.
+	shared := Sub{}
+	mode := rapid.IntRange(0, 3).Draw(t, "smode")
+	switch mode {
+	case 2:
+		shared.Order = []OrderKey{{Field: rapid.SampledFrom(fieldNames).Draw(t, "sokey"), Desc: rapid.Bool().Draw(t, "sodesc")}, {Field: "_docID"}}
+		shared.Limit, shared.Offset = rapid.IntRange(1, 4).Draw(t, "slimit"), rapid.IntRange(0, 2).Draw(t, "soffset")
+	case 3:
+		shared.Limit, shared.Offset = rapid.IntRange(1, 4).Draw(t, "slimit"), rapid.IntRange(0, 2).Draw(t, "soffset")
+	}
+	variant := func() *Filter {
+		var f Filter
+		if rapid.IntRange(0, 4).Draw(t, "same") == 0 {
+			f = cloneFilter(base)
+		} else {
+			f = perturb(t, base)
+		}
+		return &f
+	}
+	if rapid.IntRange(0, 9).Draw(t, "smember") < 7 {
+		m := shared
+		b := cloneFilter(base)
+		m.Filter = &b
+		q.Member = &m
+	} else {
+		q.Member = nil
+	}
+	n := rapid.IntRange(1, 3).Draw(t, "snaggs")
+	if q.Member == nil && n < 2 {
+		n = 2
+	}
+	q.Aggs = nil
+	for i := 0; i < n; i++ {
+		fns := []string{"_count", "_sum", "_min", "_max", "_avg"}
+		if mode == 3 {
+			fns = []string{"_count"}
+		}
+		a := Agg{Fn: rapid.SampledFrom(fns).Draw(t, "sfn"), Sub: shared}
+		if a.Fn != "_count" {
+			a.Field = rapid.SampledFrom([]string{"i", "f"}).Draw(t, "sfield")
+		}
+		a.Sub.Filter = variant()
+		q.Aggs = append(q.Aggs, a)
+	}
+	q.Siblings = true
 }
 
 // Case is one evaluation case of sub-checks (a) and (b).
